@@ -259,7 +259,7 @@ impl Prop for C16 {
             v.push(format!("curve:order{}", o));
             v.push(format!("fx:order{}", o));
         }
-        for c in ["curve:calendar:Cal", "curve:calendar:UnionCal", "curve:calendar:NamedCal", "curve:index_base:some", "curve:index_base:none", "spline:solved", "spline:unsolved", "float:subnormal", "float:random-bits", "name:non-ascii", "name:quote", "name:empty"] {
+        for c in ["curve:calendar:Cal", "curve:calendar:UnionCal", "curve:calendar:NamedCal", "curve:index_base:some", "curve:index_base:none", "spline:solved", "spline:unsolved", "fx:saved-after-quote-updates", "fx:saved-as-built", "float:subnormal", "float:random-bits", "name:non-ascii", "name:quote", "name:empty"] {
             v.push(c.to_string());
         }
         v
@@ -271,7 +271,7 @@ impl Prop for C16 {
         16
     }
     fn rule(&self) -> String {
-        "Seeded objects of every serialisable kind - Dual, Dual2, Number, Cal, UnionCal, NamedCal, CalType, Python-facing Curve (5 rules + null x orders 0/1/2 x 3 calendar kinds x index_base some/none, float / Dual / Dual2 nodes), FXRates (orders 0/1/2, float / Dual / Dual2 quotes), PPSpline of the 3 types (solved and unsolved) - with hostile contents: random finite bit patterns, 17-significant-digit values, sub-normals, +-0, extreme exponents, neighbours of powers of ten; variable names with quotes, back-slashes, control and non-ASCII characters and the empty name; holiday timestamps with non-midnight and nanosecond parts. Each goes through serde_json (the JSON trait), the tagged from_json container (verif hook) and bincode (the pickle state) and is compared with the original by the type's own == AND field by field / bit for bit, plus query answers (calendar predicates on sampled dates, curve values and index values, all n^2 FX rates, spline knots and coefficients). distinct_nontrivial = one per generated object.".into()
+        "Seeded objects of every serialisable kind - Dual, Dual2, Number, Cal, UnionCal, NamedCal, CalType, Python-facing Curve (5 rules + null x orders 0/1/2 x 3 calendar kinds x index_base some/none, float / Dual / Dual2 nodes), FXRates (orders 0/1/2, float / Dual / Dual2 quotes; half of them saved after 1-3 quote updates / derivative-order switches), PPSpline of the 3 types (solved and unsolved) - with hostile contents: random finite bit patterns, 17-significant-digit values, sub-normals, +-0, extreme exponents, neighbours of powers of ten; variable names with quotes, back-slashes, control and non-ASCII characters and the empty name; holiday timestamps with non-midnight and nanosecond parts. Each goes through serde_json (the JSON trait), the tagged from_json container (verif hook) and bincode (the pickle state) and is compared with the original by the type's own == AND field by field / bit for bit, plus query answers (calendar predicates on sampled dates, curve values and index values, all n^2 FX rates, spline knots and coefficients). distinct_nontrivial = one per generated object.".into()
     }
     fn assumptions(&self) -> Vec<String> {
         vec![
@@ -577,9 +577,10 @@ fn run_kind(_: (), kind: &str, r: &mut Rng) -> Outcome {
             }
         }
         "FXRates" => {
-            let (o, m, order) = gen_fxrates(r);
+            let (o, m, order, hist, via_two) = gen_fxrates(r);
             cls.push(format!("fx:order{}", order));
-            let d = json!({"market": m.describe(), "order": order});
+            cls.push(if hist > 0 { "fx:saved-after-quote-updates".to_string() } else { "fx:saved-as-built".to_string() });
+            let d = json!({"market (latest quotes)": m.describe(), "order": order, "successful_updates_before_saving": hist, "matrix_descends_from_second_order_build": via_two});
             let mut at_one = o.clone();
             let _ = at_one.set_ad_order(ADOrder::One);
             let out = (|| {
@@ -597,10 +598,10 @@ fn run_kind(_: (), kind: &str, r: &mut Rng) -> Outcome {
                         return fail(path, "loaded-order-not-first", json!({"object": d}));
                     }
                     // an original held at second order is compared up to derivative rounding (see number_close)
-                    if let Err(e) = fx_same_mode(l, &at_one, order != 2) {
+                    if let Err(e) = fx_same_mode(l, &at_one, !via_two) {
                         return fail(path, "not-equal", json!({"object": d, "what": e}));
                     }
-                    if order != 2 && !(*l == at_one) {
+                    if !via_two && !(*l == at_one) {
                         return fail(path, "not-equal-by-==", json!({"object": d}));
                     }
                     // and bit-for-bit with a market built directly from the same quotes and base
@@ -624,7 +625,7 @@ fn run_kind(_: (), kind: &str, r: &mut Rng) -> Outcome {
                 }
                 match tagged(VerifObj::wrap_fxrates(o.clone())) {
                     Ok((t, _)) => match t.as_fxrates() {
-                        Some(x) => match fx_same_mode(x, &at_one, order != 2) {
+                        Some(x) => match fx_same_mode(x, &at_one, !via_two) {
                             Ok(()) if fx_values_same(x, &o) => Ok(()),
                             Ok(()) => fail("tagged", "rate-values-differ", json!({"object": d})),
                             Err(e) => fail("tagged", "not-equal", json!({"object": d, "what": e})),
